@@ -54,6 +54,16 @@ theorem einfuegen_at (l l' : List Int) (i : Nat) (e : Int) (h : einfuegen l i e 
     simp [ht]
   · simp at h
 
+/-- the position behind the last element is an insert position: inserting there appends (also for the empty list) -/
+theorem einfuegen_end (l : List Int) (e : Int) : einfuegen l (l.length + 1) e = some (anfuegen l e) := by
+  simp [einfuegen, anfuegen]
+
+theorem einfuegen_defined_iff (l : List Int) (i : Nat) (e : Int) : (einfuegen l i e).isSome ↔ (1 ≤ i ∧ i ≤ l.length + 1) := by
+  unfold einfuegen; split <;> simp_all
+
+theorem einfuegenBereich_end (l r : List Int) : einfuegenBereich l (l.length + 1) r = some (l ++ r) := by
+  simp [einfuegenBereich]
+
 theorem loesche_length (l l' : List Int) (i : Nat) (h : loesche l i = some l') : l'.length + 1 = l.length := by
   unfold loesche at h
   split at h
@@ -823,5 +833,31 @@ example : varianz [1, 2, 3] = some 1 ∧ standardabweichung [0, 0, 4, 4, 2] = so
 example : mindestens 3 [1, 5 / 2, 3, 4] = some (1 / 2) ∧ hoechstens 1 [1, 5 / 2, 3, 4] = some (1 / 4) := by decide +kernel
 example : modalwert [1, 5 / 2, 5 / 2, 4, 1] = [1, 5 / 2] := by decide +kernel
 example : kovarianz [1, 2, 3] [2, 4, 6] = some 2 := by decide +kernel
+
+/-! ### TextIterator -/
+
+/-- handled and remaining letters always make up the text, in number … -/
+theorem iter_counts (t : List Int) (k : Nat) (h : k ≤ t.length) :
+    (iterView t k).behandelt + (iterView t k).verbleibend = t.length := by
+  simp [iterView]; omega
+
+/-- … and in content -/
+theorem iter_bisher_rest (t : List Int) (k : Nat) : (iterView t k).bisher ++ (iterView t k).rest = t := by
+  simp [iterView]
+
+/-- the remaining count is the length of the remaining text (letters, not bytes) -/
+theorem iter_verbleibend_rest (t : List Int) (k : Nat) : (iterView t k).verbleibend = (iterView t k).rest.length := by
+  simp [iterView]
+
+/-- the walk visits every letter once, in order -/
+theorem iterWalk_letters (t : List Int) : (iterWalk t).map (·.buchstabe) = t := by
+  apply List.ext_getElem
+  · simp [iterWalk]
+  · intro i h1 h2
+    simp [iterWalk] at h1
+    simp [iterWalk, iterView, List.headD_eq_head?_getD, List.head?_drop, h1]
+
+example : (iterWalk [97, 8364, 128512]).map (fun v => (v.index, v.verbleibend, v.rest)) =
+    [(1, 3, [97, 8364, 128512]), (2, 2, [8364, 128512]), (3, 1, [128512])] := by decide
 
 end DDP.Duden
